@@ -306,6 +306,28 @@ def gen_cases(ctx, pool, exp_safe):
             else:
                 reps = tuple(rng.choice(REPS) for _ in range(arity))
             plan.append(reps)
+        # (3) directed: one symbolic operand against each special constant (powers of two, 0, 1, all-ones, sign bit) in
+        #     every position -- where implementations keep fast paths; the adversarial valuations added in `correspond`
+        #     then evaluate the returned term at negative / non-multiple / boundary values of the symbolic operand
+        special = [0, 1, 2, 3, 4, 8, 32, 255, 256, 1 << 31, 1 << 128, 1 << 254, 1 << 255, (1 << 255) - 1, (1 << 255) + 1, W - 1, W - 2, W - 256]
+        directed = []
+        if arity >= 2:
+            for pos in range(arity):
+                for c in special:
+                    directed.append((pos, c))
+            if ctx.tier == "quick":
+                rng.shuffle(directed)
+                directed = directed[: 24 if arity == 2 else 18]
+        for pos, c in directed:
+            reps = tuple("i" if j == pos else "t" for j in range(arity))
+            vals = [c if j == pos else rng.choice([W - 1, W - 7, 7, (1 << 255) + 5, rng.randrange(W)]) for j in range(arity)]
+            if name == "EXP" and pos == 0 and c > 4:
+                continue
+            ops = [Operand(r, v % W, j, rng) for j, (r, v) in enumerate(zip(reps, vals))]
+            sig = (name, tuple((o.rep, o.val) for o in ops))
+            if sig not in seen:
+                seen.add(sig)
+                yield name, opcode, ops
         for reps in plan:
             vals = []
             for j in range(arity):
@@ -421,6 +443,17 @@ def correspond(ctx):
             elif o.rep == "bl":
                 env2[n + "a"], env2[n + "b"] = o.env[n + "b"], o.env[n + "a"]
         envs = [env, env2] if env else [env]
+        # adversarial valuations of the word-typed variables (negative, non-multiples of powers of two, sign boundary)
+        if any(o.rep in ("t", "tz") for o in ops):
+            for adv in (W - 1, W - 7, W - 128, 1 << 255, (1 << 255) + 1, 7):
+                e3 = dict(env)
+                for o in ops:
+                    if o.rep == "t":
+                        e3[f"v{o.idx}"] = adv
+                    elif o.rep == "tz":
+                        e3[f"v{o.idx}"] = adv % 256
+                if e3 not in envs:
+                    envs.append(e3)
         dens = []
         for e in envs:
             d = []
